@@ -448,6 +448,13 @@ func explain(m *MRepo, o *obs, extra *MRepo, k Knobs) []string {
 }
 
 func planC09(prop string, seed uint64, tier string, idx int) *Plan {
+	if idx%10 == 9 {
+		// crash points of a conversion (convert engine): the directory store's, whatever store the C17 plan would have used
+		p := planC17(prop, seed, tier, idx)
+		p.Knobs.Store = "dir"
+		p.Profile = "crash points of a referrers conversion"
+		return p
+	}
 	g := newGen(seed, tier)
 	g.p.Engine = "crash"
 	g.p.Profile = "crash points"
